@@ -130,7 +130,7 @@ theorem library_conforming (c : Config) (rnd : Bytes) (atts : List (UInt8 × Byt
       cases id <;> simp [kdfArgon2id, kdfArgon2d]
   refine ⟨⟨hr.1, by rw [l1]; decide, by rw [l2]; cases c.outer <;> decide, hkr, hperm _, ?_, by simp [libraryLayout],
       hvdlen, by simp [libraryLayout]⟩, fun r _ => l4, by rw [l3]; cases c.inner <;> decide,
-      fun h => by rw [l3, h]; rfl, ha, ?_, ?_⟩
+      ha, ?_, ?_⟩
   · intro f hf
     simp [libraryLayout] at hf
     rcases hf with rfl | rfl | rfl | rfl | rfl <;> trivial
